@@ -1066,7 +1066,8 @@ impl<'a> Gen<'a> {
                     // elements): a lambda may double `so_far` in every step (push [] .so_far .so_far,
                     // stringify of the fold record), which is exponential in the list length -
                     // resource exhaustion, outside every property's domain
-                    if s.f == "fold" && i == 0 {
+                    // (cross ..) multiplies the lengths of its arguments: they stay literals or fields too
+                    if (s.f == "fold" && i == 0) || s.f == "cross" {
                         let x = self.leaf(k, env);
                         prev_kind = k;
                         args.push(x);
